@@ -239,6 +239,7 @@ def run(ctx, H):
         lock_dst = os.path.join(REJ, "Cargo.lock")
         if not os.path.exists(lock_dst):
             open(lock_dst, "w").write(open(os.path.join(C.REPO, "Cargo.lock")).read())
+        os.makedirs(os.path.join(REJ, "src"), exist_ok=True)
         open(os.path.join(REJ, "src", "lib.rs"), "w").write("\n".join(lines) + "\n")
         rc, out = C.sh(["cargo", "check", "--offline", "--message-format=json", "--quiet"], cwd=REJ, timeout=3000)
     diags = []
